@@ -87,8 +87,9 @@ struct Cyc {
                 Dense B(n, std::vector<Q>(n));
                 for (long j = 0; j < n; ++j) { std::vector<Q> e(n, Q(0)); e[j] = Q(1); std::vector<Q> c = apply(amg, e); for (long i = 0; i < n; ++i) B[i][j] = c[i]; l << c; }
                 // scaling oracle (C02 "B(2^k A) = 2^-k B(A)", C02e): the hierarchy built by the real code for 4 A, same parameters, must
-                // have the same number of levels and B(4 A) = B(A) / 4 entry by entry (exact rationals); all smoothers, all coarsenings
-                {
+                // have the same number of levels and B(4 A) = B(A) / 4 entry by entry (exact rationals); ILU(0) and Chebyshev (rk 3, 4: the
+                // smoothers without a scaling THEOREM before C02e; Jacobi / SPAI-0 / Gauss-Seidel are C02b.smoothers_scale), all coarsenings
+                if (rp.rk >= 3) {
                     Hdr h4 = h; for (auto &v : h4.A.val) v = v * Q(4);
                     const char *bad = nullptr;
                     try {
